@@ -43,4 +43,23 @@ theorem mbi_efi_memory_map_tag_withheld :
       "{self.get_tag::<EFIBootServicesNotExitedTag>().map_or_else(||self.get_tag::<EFIMemoryMapTag>(),|_tag|{log::debug!(\"...\");None})}" = true := by
   decide
 
+theorem mbi_elf_sections_is_guarded_sections :
+    pinned Gen.Fns.mbi_elf_sections_text
+      "{let tag=self.get_tag::<ElfSectionsTag>();tag.map(|t|{assert!((t.entry_size()as u64*t.shndx()as u64)<=t.header().size as u64);t.sections()})}" = true := by
+  decide
+/-- text before the first NUL of exactly the slice handed in, then UTF-8 validation (`parseStr`) -/
+theorem parse_slice_as_string_is_cstr_then_utf8 :
+    pinned Gen.Fns.parse_slice_as_string_text
+      "{let cstr=core::ffi::CStr::from_bytes_until_nul(bytes).map_err(StringError::MissingNul)?;cstr.to_str().map_err(StringError::Utf8)}" = true := by
+  decide
+/-- the three string accessors parse exactly the tag's unsized tail (whose length is `dst_len`, i.e. the declared size) -/
+theorem cmdline_get_parses_tail : pinned Gen.Fns.cmdline_get_text "{parse_slice_as_string(&self.cmdline)}" = true := by decide
+theorem loader_name_get_parses_tail : pinned Gen.Fns.loader_name_get_text "{parse_slice_as_string(&self.name)}" = true := by decide
+theorem module_cmdline_get_parses_tail : pinned Gen.Fns.module_cmdline_get_text "{parse_slice_as_string(&self.cmdline)}" = true := by decide
+/-- RSDP v1: the byte sum over `[8, 8 + 20)` of the tag (every byte, revision included) must be 0 -/
+theorem rsdp1_checksum_sums_20_bytes :
+    pinned Gen.Fns.rsdp1_checksum_text
+      "{let bytes=unsafe{slice::from_raw_parts(self as*const _ as*const u8,RSDPV1_LENGTH+8)};bytes[8..].iter().fold(0u8,|acc,val|acc.wrapping_add(*val))==0}" = true := by
+  decide
+
 end Mb2.Fns
